@@ -17,6 +17,7 @@ func RegisterAll() {
 		RealComponents: []string{"gmrtd reader.Reader, verifier.Verifier, mobile.Reader/Verifier/PreloadCscaCertPool, cms cert pools, and everything below them; Go race detector"},
 		SimComponents:  []string{"SimSched cooperative scheduler", "SimChip/SimPKI worlds", "per-operation random streams"},
 		RequiredProbes: []string{"lock_contended", "preempted_inside_call", "linearizable", "independent_instances_checked", "once_initialised_in_this_run"},
+		SampledOracles: map[string]bool{"data-race": true},
 		QuickBudget:    150, ThoroughBudget: 2400,
 	})
 	protoReal := []string{"gmrtd pace / bac / chipauth / activeauth, iso7816 (NfcSession, SecureMessaging), document constructors, password, mrz, cryptoutils"}
